@@ -290,6 +290,12 @@ class DictWriter:
                 "type": self.write_type(instruction.ty),
                 "value": instruction.value,
             }
+        elif isinstance(instruction, ir.Undefined):
+            json_instruction = {
+                "kind": "undefined",
+                "name": instruction.name,
+                "type": self.write_type(instruction.ty),
+            }
         elif isinstance(instruction, ir.LiteralData):
             json_instruction = {
                 "kind": "literaldata",
@@ -550,6 +556,11 @@ class DictReader:
             ty = self.get_type(json_instruction["type"])
             value = json_instruction["value"]
             instruction = ir.Const(value, name, ty)
+            self.register_value(instruction)
+        elif itype == "undefined":
+            name = json_instruction["name"]
+            ty = self.get_type(json_instruction["type"])
+            instruction = ir.Undefined(name, ty)
             self.register_value(instruction)
         elif itype == "literaldata":
             name = json_instruction["name"]
